@@ -1,6 +1,7 @@
 """C05: number <-> bits codecs."""
 from .engine import Prop
 from .common import *
+from .progs import hexsrc
 
 
 class C05(Prop):
@@ -98,7 +99,46 @@ class C05(Prop):
                     cs.append('bs f64 %s %x %d %s' % (o, p, off, rand_hex(rng, 1) if off else '-'))
         for _ in range(300 if not thorough else 5000):
             cs.append('bs tof %d %s %s' % (rng.choice((4, 8)), rng.choice(('le', 'be')), rand_val(rng, maxbytes=12)))
+        # the pack words of the language: every fixed-width word (default order / explicit le / explicit be) under both settings of the
+        # default byte order, and the sized words at byte-multiple widths: the packed bytes are the platform's layout of the value
+        self.word_expect = {}
+        for setting in ('little', 'big', ''):
+            for w in (8, 16, 32, 64):
+                for sfx in ('', 'le', 'be'):
+                    for sg in ('i', 'u'):
+                        for v in int_pool(rng, w, 2)[:(4 if not thorough else 16)] + [0x0102030405060708 % (1 << w)]:
+                            order = 'big' if (sfx == 'be' or (sfx == '' and setting == 'big')) else 'little'
+                            src = ('%s %d %s%d%s!' % (setting, v, sg, w, sfx)).strip()
+                            case = 'xs limits 4000 - - | eval %s | stack' % hexsrc(src)
+                            cs.append(case)
+                            self.word_expect[case] = ((v % (1 << w)).to_bytes(w // 8, order), src)
+            for w in (8, 24, 40, 72, 128):
+                for word in ('int!', 'uint!'):
+                    for v in int_pool(rng, w, 2)[:(3 if not thorough else 10)] + [0x0102030405060708090a0b0c0d0e0f10 % (1 << w)]:
+                        order = 'big' if setting == 'big' else 'little'
+                        src = ('%s %d %d %s' % (setting, v, w, word)).strip()
+                        case = 'xs limits 4000 - - | eval %s | stack' % hexsrc(src)
+                        cs.append(case)
+                        self.word_expect[case] = ((v % (1 << w)).to_bytes(w // 8, order), src)
         return cs
+
+    def group_check(self, cases, impl):
+        fails, n = [], 0
+        for c, o in zip(cases, impl):
+            if c not in getattr(self, 'word_expect', {}):
+                continue
+            n += 1
+            want, src = self.word_expect[c]
+            bits = ''.join('{:08b}'.format(b) for b in want)
+            ou = o.split(' | ')
+            got = [t for t in ou[-1].strip('[] ').split(' ') if t]
+            if ou[-2] != 'ok':
+                # a value outside the word's range may be refused; then nothing is packed
+                continue
+            if got != ['B' + bits]:
+                fails.append(('case: %s\nsource: %s\nresult: %s' % (c, src, o[:400]),
+                              '`%s` packed %s, the standard byte layout is %s' % (src, got, want.hex())))
+        return n, fails, [], dict(pack_word_layouts=n)
 
 
 PROP = C05()
